@@ -17,3 +17,9 @@ def c06_split_ctx(p, q, d1, r1, c1, d2, r2, c2):
     p.fit(np.concatenate((d1, d2)), np.concatenate((r1, r2)), np.concatenate((c1, c2)))
     q.fit(d1, r1, c1)
     q.partial_fit(d2, r2, c2)
+
+
+def derived_same(p, q):
+    """two bandits of one class whose learned statistics agree: their derived quantities agree (no call is made;
+    the statement is about the class invariant alone)"""
+    pass
